@@ -142,12 +142,20 @@ class P(Prop):
     def build_child(self, sc, bb):
         rng = self.rng
         ins = sorted(bb.input_set)
+        omit = None
+        if ins and rng.random() < 0.15:
+            # a model that leaves one blackbox input unused (must be rejected: the io sets have to match), sometimes with
+            # an internal gate named like the unused pin
+            omit = rng.choice(ins)
+            ins = [i for i in ins if i != omit]
+            self.stats.bump("fill:child-omits-input")
         for i in ins:
             sc.add(i, "input")
         pool = list(ins)
         for j in range(rng.randint(0, 2)):
             if pool:
-                pool.append(sc.add(f"w{j}", rng.choice(["and", "or", "xor", "not"]),
+                nm_ = omit if (omit and omit not in sc and rng.random() < 0.5) else f"w{j}"
+                pool.append(sc.add(nm_, rng.choice(["and", "or", "xor", "not"]),
                                    fanin=rng.sample(pool, 1 if rng.random() < 0.5 else min(2, len(pool)))))
         for o in sorted(bb.output_set):
             if o in sc:
